@@ -77,13 +77,13 @@ def _case(draw):
         series[draw(st.integers(0, n - 1))] = [x[:] if ndim > 1 else x for x in series[draw(st.integers(0, n - 1))]]
     lens = [len(s) for s in series]
     if ndim == 1:
-        conts = ['list-list', 'list-ndarray', 'list-array']
+        conts = ['list-list', 'list-ndarray', 'list-array', 'list-strided']
         if len(set(lens)) == 1:
-            conts.append('2d')
+            conts += ['2d', '2d-F', '2d-strided']
     else:
-        conts = ['list-ndarray', 'list-list']
+        conts = ['list-ndarray', 'list-list', 'list-strided']
         if len(set(lens)) == 1:
-            conts.append('3d')
+            conts += ['3d', '3d-F']
     case = {'series': series, 'ndim': ndim, 'container': draw(st.sampled_from(conts)),
             'block': draw(block_strategy(n)), 'window': draw(st.one_of(st.none(), st.integers(1, 6))),
             'penalty': draw(st.sampled_from([None, None, 0.5, 1.0])),
@@ -100,6 +100,28 @@ def _container(case, eng):
     k = case['container']
     if k == '2d' or k == '3d':
         return np.array(S, dtype=np.double)
+    if k in ('2d-F', '3d-F'):
+        return np.asfortranarray(np.array(S, dtype=np.double))
+    if k == '2d-strided':
+        # every second row and every second column of a larger table: a view that is contiguous in no order
+        a = np.array(S, dtype=np.double)
+        big = np.full((2 * a.shape[0], 2 * a.shape[1]), 777.25)
+        big[::2, ::2] = a
+        return big[::2, ::2]
+    if k == 'list-strided':
+        # the series are non-contiguous views (a column of a table / every second sample), as in [m[:, j] for j in ..]
+        out = []
+        for s in S:
+            a = np.array(s, dtype=np.double)
+            if case['ndim'] == 1:
+                big = np.full(2 * len(a), -555.5)
+                big[::2] = a
+                out.append(big[::2])
+            else:
+                big = np.full((a.shape[0], a.shape[1] + 2), -555.5)
+                big[:, 1:-1] = a
+                out.append(big[:, 1:-1])
+        return out
     if k == 'list-ndarray' or (eng == 'c' and k == 'list-list'):
         return [np.array(s, dtype=np.double) for s in S]
     if k == 'list-array':
